@@ -1,8 +1,8 @@
 """C16 — Forceful reapers act only on their documented trigger.
 
 Closed model Reapers.tla (expiration, garbage collection, liveness, node repair as reconciles made of fallible
-reads + decision; clock ticks to T-1s/T/T+1s of every pending deadline; instance / node / condition / pool
-population environment) checked exhaustively by TLC in several scenario configurations; each mechanism
+reads (each with an error kind) + decision; millisecond clock with ticks to sub-second offsets around every pending
+deadline; instance / node / condition / pool population (incl. terminating nodes) environment) checked exhaustively by TLC in several scenario configurations; each mechanism
 mutation (Reapers_Weak*.cfg) must be rejected.  Behaviours = TLC simulation of the model + systematic
 threshold / fault / 20 %-grid placement, replayed on the real expiration, garbagecollection, node.health and
 lifecycle(liveness) controllers on the world harness; Reapers_Trace.tla evaluates the acting reaper's guard at
@@ -47,12 +47,13 @@ def lifecycle_liveness_behaviours(run, rng):
 def check(run):
     rng = random.Random(run.seed)
     run.rule = ("behaviours = TLC simulation of Reapers.tla (random interleavings of expiration / garbage-collection / "
-                "liveness / node-repair reconciles with one failing read or write, clock ticks to T-1s, T, T+1s of every "
-                "pending deadline, instance vanishing, node NotReady/Ready/gone, unhealthy conditions appearing/clearing, "
-                "other pool nodes turning unhealthy, user deletes, restarts) + systematic placement: expiration x "
-                "{Never,0,45s,600s} x clock offsets x delete faults/stale copies; garbage collection x {registered, "
+                "liveness / node-repair reconciles with one failing read (generic or NotFound-typed error) or write, a millisecond "
+                "clock ticking to T-1000/-501/-500/-1/0/+1/+500 ms of every pending deadline, instance vanishing, node NotReady/Ready/gone, unhealthy conditions appearing/clearing, "
+                "other pool nodes turning unhealthy / lingering as terminating objects, user deletes, restarts) + systematic "
+                "placement: expiration x {Never,0,45s,600s} x sub-second clock offsets x delete faults/stale copies; garbage collection x {registered, "
                 "instance listed/gone, node Ready/NotReady/Unknown/absent/duplicate} x a failure at each read; node repair x "
-                "pool sizes 1..11 x unhealthy counts around ceil(20%) x pool/standalone x toleration offsets x read faults; "
+                "pool sizes 1..11 x unhealthy counts around ceil(20%) (some already terminating) x pool/standalone x sub-second "
+                "toleration offsets x read faults of each kind, multi-wave repair histories; "
                 "liveness x both timeouts x offsets x faults (reapers world and the lifecycle driver). Each is replayed on "
                 "the real controllers; non-trivial = the real trace contains an effective NodeClaim delete by a reaper "
                 "(a guarded event of C16)")
@@ -68,10 +69,9 @@ def check(run):
             raise vlib.InfraError("vacuous closed model, actions never taken in any configuration: %s" % zero)
         run.notes.append("coverage: every action of Reapers.tla is taken in at least one closed-model configuration")
     weak = sorted(rc.WEAK)
-    if run.tier == "quick":       # the pinned-tree mutation always, the others rotate with the seed
-        rest = [w for w in weak if w != "Reapers_WeakGcLookup.cfg"]
+    if run.tier == "quick":       # one mutation per reaper, rotating with the seed
         rng2 = random.Random(run.seed)
-        weak = ["Reapers_WeakGcLookup.cfg"] + rng2.sample(rest, 3)
+        weak = [rng2.choice([w for w in weak if rc.WEAK[w] == inv]) for inv in sorted(set(rc.WEAK.values()))]
     rc.weak_configs(run, weak)
 
     # ---- behaviours on the real code: reapers world
@@ -123,7 +123,8 @@ def check(run):
     run.samples = [{"tag": b["tag"], "steps": b["steps"]} for b in (pick[:3] or behs[:3])] + [{"tag": sim[0]["tag"], "steps": sim[0]["steps"]}]
     run.assumptions += [
         "controller-runtime fake client + harness choke point stand in for the API server; the harness provider's List returns every instance that is not gone",
-        "each reconcile is handed the stored object (or, for 'stale' steps, the copy it was handed last time); time is whole seconds",
+        "each reconcile is handed the stored object (or, for 'stale' steps, the copy it was handed last time)",
+        "instants are milliseconds; stamps stored on objects (creation, condition transitions) are whole seconds as the API serialises them, and objects are created / conditions flipped by the environment at whole seconds unless stated",
         "the pool's nodes = Nodes carrying the claim's karpenter.sh/nodepool label; a standalone claim is judged against every Node of the cluster",
         "two or more Nodes with the claim's provider id (documented by Karpenter as an invalid, deliberately ignored state) are accepted by the garbage-collection guard",
         "only effective deletes (object present and not already deleting, call succeeded) are judged",
